@@ -75,9 +75,9 @@ ASSUMPTIONS = [
 # Known findings on the unchanged tree (see known_findings.d/C11.jsonl).  While
 # a flag is True the generator lowers the share of inputs that trigger the
 # finding so that the remaining search is not blind behind it.
-KNOWN_FAST_TIES = True        # pinned/C11/fast_col0_ties.json
-KNOWN_JAX_ONE_SHARD = True    # pinned/C11/jax_one_shard.json
-KNOWN_INRAM_INELIGIBLE = True  # pinned/C11/inram_*.json
+KNOWN_FAST_TIES = False        # pinned/C11/fast_col0_ties.json
+KNOWN_JAX_ONE_SHARD = False    # pinned/C11/jax_one_shard.json
+KNOWN_INRAM_INELIGIBLE = False  # pinned/C11/inram_*.json
 
 THRESHOLDS = (1, 2, 3, 5, 10000)
 SHARDS = (1, 2, 3, 10, 50)
@@ -986,14 +986,14 @@ def families(tier):
                   required_classes=('tie_opt_nonopt', 'dup_optimal', 'n=0',
                                     'd=1', 'd=2')),
       core.Family('pure_np', check_np, strategy=np_strategy,
-                  budget={'quick': 3200, 'thorough': 100000},
+                  budget={'quick': 3200, 'thorough': 150000},
                   shards={'quick': 8, 'thorough': 16},
                   required_classes=('tie_opt_nonopt', 'dup_optimal',
                                     'col0_ties', 'has_inf', 'n=0', 'n=13..40',
                                     'd=1', 'd=4', 'against_has_equal_point',
                                     'col0_distinct(avoids_known_fast_ties)')),
       core.Family('pure_jax', check_jax, strategy=jax_strategy,
-                  budget={'quick': 800, 'thorough': 15000},
+                  budget={'quick': 800, 'thorough': 20000},
                   shards={'quick': 8, 'thorough': 16},
                   required_classes=('tie_opt_nonopt', 'dup_optimal', 'has_inf',
                                     'n=0', 'n=13..40', 'num_shards=1',
@@ -1002,7 +1002,7 @@ def families(tier):
                                     'fast_with_jax_base',
                                     'against_has_equal_point')),
       core.Family('service', check_service, strategy=service_strategy,
-                  budget={'quick': 640, 'thorough': 20000},
+                  budget={'quick': 640, 'thorough': 30000},
                   shards={'quick': 8, 'thorough': 16},
                   required_classes=(
                       'tie_opt_nonopt', 'dup_optimal', 'ram', 'sqlmem',
@@ -1014,7 +1014,7 @@ def families(tier):
                       'has_minimize', 'safety_metric', 'deleted_optimal',
                       'objectives=1', 'objectives=3')),
       core.Family('inram', check_inram, strategy=inram_strategy,
-                  budget={'quick': 1200, 'thorough': 30000},
+                  budget={'quick': 1200, 'thorough': 40000},
                   shards={'quick': 8, 'thorough': 16},
                   required_classes=(
                       'tie_opt_nonopt', 'dup_optimal',
